@@ -29,6 +29,9 @@ def compare(q_orig, q_new, full_data=False, extra_env=None, allowed_free=None, d
     # static scope check: no name may be (or become) unbound
     fr0 = refsem.free_names(q_orig)
     fr1 = refsem.free_names(q_new)
+    stray = fr0 - OPERATOR_NAMES - {"ds"} - (allowed_free or set())
+    if stray:
+        raise RuntimeError(f"harness generated an open term (free {sorted(stray)}): {ast.unparse(q_orig)[:200]}")
     extra = fr1 - fr0 - OPERATOR_NAMES - (allowed_free or set())
     if extra:
         return ("unbound-name", f"free names introduced: {sorted(extra)}", 0, {"unbound"})
